@@ -26,6 +26,34 @@ def pinned_functions():
     return _PINNED
 
 
+def basename(path):
+    """Module-independent name of an item: `Type::method` for associated functions, the last segment otherwise."""
+    segs = [x for x in re.split(r"::(?![^<]*>)", path) if x]
+    if len(segs) >= 2 and (segs[-2][:1].isupper() or segs[-2].startswith("<")):
+        return segs[-2] + "::" + segs[-1]
+    return segs[-1] if segs else path
+
+
+def moved_alias(by_path):
+    """{new path -> old pinned path} for functions that only changed module (the reviewed path no longer exists and
+    exactly one unreviewed function carries the same module-independent name)."""
+    pin = pinned_functions()
+    if not pin:
+        return {}
+    gone = {}
+    for q in pin:
+        if q not in by_path and "{closure" not in q:
+            gone.setdefault(basename(q), []).append(q)
+    out = {}
+    for r in by_path:
+        if r in pin or "{closure" in r:
+            continue
+        c = gone.get(basename(r), [])
+        if len(c) == 1 and sum(1 for r2 in by_path if r2 not in pin and "{closure" not in r2 and basename(r2) == basename(r)) == 1:
+            out[r] = c[0]
+    return out
+
+
 COMBINATORS = [
     (r"^std::option::Option::<T>::map$", "opt_map"),
     (r"^std::option::Option::<T>::and_then$", "opt_and_then"),
@@ -41,6 +69,7 @@ COMBINATORS = [
     (r"^std::result::Result::<T, E>::map_or_else$", "res_map_or_else"),
     (r"^std::iter::Iterator::any$", "it_any"),
     (r"^std::iter::Iterator::all$", "it_all"),
+    (r"^std::iter::Iterator::for_each$", "it_for_each"),
 ]
 
 
@@ -113,7 +142,7 @@ class Splicer:
     def goto(b):
         return {"k": "goto", "target": b}
 
-    def splice_body(self, callee, arg_ops, dest_place, cont, span, env_op=None, label=None):
+    def splice_body(self, callee, arg_ops, dest_place, cont, span, env_op=None, label=None, upvars=None):
         """Copy callee's blocks/locals into this body; returns the entry block id. Parameters are assigned in a fresh
         entry block; `return` becomes `dest = _0; goto cont`."""
         off_l = len(self.locals)
@@ -148,8 +177,37 @@ class Splicer:
                     r[k] = rm(v)
             return r
 
+        env_local = off_l + 1
+
+        def subst(o):
+            """captured variables: `(*(*env).k)` (by reference) / `(*env).k` (by value) -> the parent's own place"""
+            if isinstance(o, list):
+                return [subst(x) for x in o]
+            if not isinstance(o, dict):
+                return o
+            if "local" in o and "proj" in o and isinstance(o.get("proj"), list) and o["local"] == env_local and upvars:
+                pr = list(o["proj"])
+                if pr and pr[0] == "deref":
+                    pr = pr[1:]
+                if pr and isinstance(pr[0], dict) and "field" in pr[0] and pr[0].get("idx", -1) < len(upvars):
+                    uv = upvars[pr[0]["idx"]]
+                    rest = pr[1:]
+                    if uv is not None and uv[0] == "ref" and rest and rest[0] == "deref":
+                        r = dict(o)
+                        r["local"] = uv[1]["local"]
+                        r["proj"] = list(uv[1]["proj"]) + [subst(e) for e in rest[1:]]
+                        return r
+                    if uv is not None and uv[0] == "val":
+                        r = dict(o)
+                        r["local"] = uv[1]["local"]
+                        r["proj"] = list(uv[1]["proj"]) + [subst(e) for e in rest]
+                        return r
+            return {k: (v if k == "const" else subst(v)) for k, v in o.items()}
+
         for blk in callee["blocks"]:
             nb = rm(blk)
+            if upvars:
+                nb = subst(nb)
             nb["id"] = blk["id"] + off_b
             if label:
                 nb["inlined_from"] = label
@@ -172,7 +230,13 @@ class Splicer:
             else:
                 stmts.append(self.assign(P(off_l + 1 + i), self.use(a), span))
         entry = self.new_block(stmts, self.goto(off_b), span)
+        self.last_off = (off_l, off_b)
         return entry
+
+    def bind_and_enter(self, off_l, off_b, arg_ops, span):
+        """A further call site of a body that was already spliced: assign the (shared) parameter locals, enter it."""
+        stmts = [self.assign(P(off_l + 1 + i), self.use(a), span) for i, a in enumerate(arg_ops)]
+        return self.new_block(stmts, self.goto(off_b), span)
 
 
 class Normaliser:
@@ -186,6 +250,7 @@ class Normaliser:
         self.closure_uses = {}  # closure path -> [n inlined, n other]
         self.fn_inlined = set()
         self.stats = {"combinators": 0, "closures_inlined": 0, "helpers_inlined": 0}
+        self.moved = moved_alias(self.by_path)
 
     # -------------------------------------------------------------- helpers
     def single_def_stmt(self, j, local):
@@ -269,22 +334,65 @@ class Normaliser:
                 env = MV(clos)
             self.stats["closures_inlined"] += 1
             self.closure_uses.setdefault(fnc, [0, 0])[0] += 1
+            # captured variables of the closure value: by-reference captures are re-borrows of the parent's places
+            upvars = None
+            cd = self.single_def_stmt(j, clos_local)
+            if cd is not None and cd.get("k") == "assign" and cd["rv"].get("closure"):
+                upvars = []
+                for o in cd["rv"]["ops"]:
+                    pl = o.get("move") or o.get("copy")
+                    uv = None
+                    if pl is not None and not pl["proj"]:
+                        dd = self.single_def_stmt(j, pl["local"])
+                        if dd is not None and dd.get("k") == "assign" and dd["rv"]["k"] == "ref" and "deref" not in dd["rv"]["place"]["proj"][:0]:
+                            uv = ("ref", dd["rv"]["place"])
+                        elif dd is not None:
+                            uv = ("val", pl)
+                    upvars.append(uv)
             # closure params: a single tuple-spread is not used by mir_built closures (args are individual locals)
-            return sp.splice_body(cj, args, dest_place, cont, span, env_op=env, label=fnc)
+            return sp.splice_body(cj, args, dest_place, cont, span, env_op=env, label=fnc, upvars=upvars)
         # fn item
         c = fnc
         if c.get("ctor"):
             ct = c["ctor"]
             rv = {"k": "aggregate", "adt": ct["adt"], "variant": ct["variant"], "fields": ct["fields"], "ops": args}
-            return sp.new_block([sp.assign(dest_place, rv, span)], sp.goto(cont), span)
+            st = sp.assign(dest_place, rv, span)
+            st.pop("syn", None)  # a constructor passed as a function item is a construction written by the author
+            return sp.new_block([st], sp.goto(cont), span)
         local = c["fn"] in self.by_path
         term = {"k": "call", "callee": c["fn"], "callee_true": c["fn"], "callee_full": c.get("fn_full", c["fn"]), "gargs": [], "resolved": c["fn"], "resolved_true": c["fn"],
                 "resolved_full": c.get("fn_full", c["fn"]), "resolved_local": local, "args": args, "arg_tys": ["?"] * len(args), "dest": dest_place, "target": cont, "unwind": None, "fn_span": span}
         return sp.new_block([], term, span)
 
+    def is_tail_call(self, j, t):
+        """'ret' if the call's result is the function's result (dest is _0 and only drops/gotos follow until `return`),
+        'ret:Ok' / 'ret:Some' / 'ret:Err' if it is returned wrapped (`return Ok(helper(..))`); None otherwise."""
+        if t["dest"]["proj"] or t.get("target") is None:
+            return None
+        cur = t["target"]
+        kind = "ret" if t["dest"]["local"] == 0 else None
+        for n in range(40):
+            blk = j["blocks"][cur]
+            if blk["stmts"]:
+                st = blk["stmts"]
+                if n == 0 and kind is None and len(st) == 1 and st[0]["k"] == "assign" and st[0]["place"] == {"local": 0, "proj": []} and st[0]["rv"]["k"] == "aggregate" \
+                        and st[0]["rv"].get("adt") in ("std::result::Result", "std::option::Option") and len(st[0]["rv"]["ops"]) == 1 and st[0]["rv"]["ops"][0].get("move") == t["dest"]:
+                    kind = "ret:" + st[0]["rv"]["variant"]
+                else:
+                    return None
+            tt = blk["term"]
+            if tt["k"] == "return":
+                return kind
+            if tt["k"] in ("goto", "drop"):
+                cur = tt["target"]
+                continue
+            return None
+        return None
+
     def normalise(self, j):
         sp = Splicer(j)
         nblocks = len(j["blocks"])
+        shared = {}
         for bi in range(nblocks):
             blk = j["blocks"][bi]
             if blk.get("cleanup"):
@@ -302,12 +410,25 @@ class Normaliser:
             # helper inlining
             pin = pinned_functions()
             r = t.get("resolved")
-            if pin is not None and t.get("resolved_local") and r in self.by_path and r not in pin and t.get("target") is not None:
+            if pin is not None and t.get("resolved_local") and r in self.by_path and r not in pin and r not in self.moved and t.get("target") is not None:
                 cj0 = self.by_path[r]
                 if cj0["kind"] in ("Fn", "AssocFn") and not cj0.get("coroutine_kind") and r != j["path"]:
                     cj = self.body(r)
                     span = blk["tspan"]
+                    # a helper called in tail position from several early returns (`return Self::finish(..)`): one shared
+                    # copy, entered from every site - its parameters then play the part of the caller's mutable locals
+                    tk = self.is_tail_call(j, t)
+                    if tk in ("ret:Err", "ret:None"):
+                        tk = None  # error constructors stay one copy per site: each site is a rule site of its own
+                    if tk and (r, tk) in shared:
+                        off_l, off_b = shared[(r, tk)]
+                        blk["term"] = sp.goto(sp.bind_and_enter(off_l, off_b, t["args"], span))
+                        blk["inlined_call"] = r
+                        self.stats["helpers_inlined"] += 1
+                        continue
                     entry = sp.splice_body(cj, t["args"], t["dest"], t["target"], span, label=r)
+                    if tk:
+                        shared[(r, tk)] = sp.last_off
                     blk["term"] = sp.goto(entry)
                     blk["inlined_call"] = r
                     self.stats["helpers_inlined"] += 1
@@ -428,7 +549,7 @@ class Normaliser:
             if b_ok is None or b_err is None:
                 return
             sw = {"k": "switch", "discr": MV(P(dl)), "discr_ty": "isize", "targets": [[0, b_ok], [1, b_err]], "otherwise": b_err}
-        elif kind in ("it_any", "it_all"):
+        elif kind in ("it_any", "it_all", "it_for_each"):
             # loop { match iter.next() { None => break default, Some(x) => if pred(x) == stop { break !default } } }
             ity = rty
             it_ref = sp.new_local("&mut " + rty.lstrip("&mut ").strip(), None)
@@ -440,7 +561,13 @@ class Normaliser:
             b_none = sp.new_block([sp.assign(dest, sp.use({"const": {"ty": "bool", "repr": str(bool(default)).lower(), "scalar": default}}), span)], sp.goto(cont), span)
             b_hit = sp.new_block([sp.assign(dest, sp.use({"const": {"ty": "bool", "repr": str(bool(1 - default)).lower(), "scalar": 1 - default}}), span)], sp.goto(cont), span)
             head = sp.new_block([], {"k": "goto", "target": 0}, span)  # patched below
-            test = sp.new_block([], {"k": "switch", "discr": MV(P(pr)), "discr_ty": "bool", "targets": [[0, b_hit if kind == "it_all" else head]], "otherwise": b_hit if kind == "it_any" else head}, span)
+            if kind == "it_for_each":
+                # loop { match iter.next() { None => break, Some(x) => f(x) } }
+                b_none = sp.new_block([sp.assign(dest, sp.use({"const": {"ty": "()", "repr": "()", "zst": True}}), span)], sp.goto(cont), span)
+                test = sp.new_block([], sp.goto(head), span)
+                pr = sp.new_local("()", None)
+            else:
+                test = sp.new_block([], {"k": "switch", "discr": MV(P(pr)), "discr_ty": "bool", "targets": [[0, b_hit if kind == "it_all" else head]], "otherwise": b_hit if kind == "it_any" else head}, span)
             e = call(0, [MV(P(pay))], P(pr), test)
             if e is None:
                 return
@@ -466,10 +593,185 @@ class Normaliser:
         blk["desugared"] = kind
         self.stats["combinators"] += 1
 
+    # -------------------------------------------------------------- `?` threading
+    def thread_try(self, j):
+        """Jump threading of `?` over values of known variant: when `tmp = Result::Ok/Err{..}` (or Option::Some/None)
+        flows along a branch-free chain of blocks into `x = Try::branch(move tmp); switch discr(x)`, the chain is
+        duplicated for that construction site and the switch replaced by the one edge that variant can take. After
+        this an error built in an inlined helper (or in a desugared `ok_or_else`) and propagated by the caller's `?`
+        has the same control flow as a `return Err(..)` written in the caller."""
+        blocks = j["blocks"]
+        n0 = len(blocks)
+        sites = []
+        for bi in range(n0):
+            blk = blocks[bi]
+            if blk.get("cleanup"):
+                continue
+            for si, st in enumerate(blk["stmts"]):
+                if st["k"] != "assign" or st["place"]["proj"]:
+                    continue
+                rv = st["rv"]
+                if rv["k"] == "aggregate" and rv.get("adt") in ("std::result::Result", "std::option::Option") and rv.get("variant") in ("Ok", "Err", "Some", "None"):
+                    sites.append((bi, si, st["place"]["local"], rv["variant"]))
+            t = blk["term"]
+            # `?` inside an inlined helper: from_residual(..) always yields the failure variant
+            if t["k"] == "call" and re.search(r"ops::FromResidual::from_residual$", t.get("callee", "")) and t.get("target") is not None and not t["dest"]["proj"]:
+                rf = t.get("resolved_full", "")
+                if rf.startswith("<std::result::Result<"):
+                    sites.append((bi, None, t["dest"]["local"], "Err"))
+                elif rf.startswith("<std::option::Option<"):
+                    sites.append((bi, None, t["dest"]["local"], "None"))
+        done = 0
+        for bi, si, name, variant in sites:
+            # forward simulation along single-successor blocks
+            path = []
+            cur = bi
+            start = si + 1 if si is not None else 0
+            hit = None
+            if si is None:
+                cur = blocks[bi]["term"]["target"]
+                path.append(cur)
+            for _ in range(24):
+                blk = blocks[cur]
+                ok = True
+                for st in blk["stmts"][start:]:
+                    if st["k"] != "assign":
+                        continue
+                    rv = st["rv"]
+                    src = rv["op"].get("move") if rv["k"] == "use" else None
+                    if src is not None and src["local"] == name and not src["proj"] and not st["place"]["proj"]:
+                        name = st["place"]["local"]
+                        continue
+                    if st["place"]["local"] == name:
+                        ok = False
+                        break
+                if not ok:
+                    break
+                t = blk["term"]
+                if t["k"] == "call" and re.search(r"ops::Try::branch$", t.get("callee", "")) and t.get("target") is not None:
+                    a = t["args"][0].get("move")
+                    if a is not None and a["local"] == name and not a["proj"]:
+                        hit = (cur, t)
+                    break
+                if t["k"] == "goto" or (t["k"] == "drop" and t["place"]["local"] != name):
+                    nxt = t["target"]
+                    if nxt == bi or nxt in path:
+                        break
+                    path.append(nxt)
+                    cur = nxt
+                    start = 0
+                    continue
+                break
+            if hit is None:
+                continue
+            bblk, bt = hit
+            sw = blocks[bt["target"]]
+            st_ = sw["term"]
+            if st_["k"] != "switch" or len(sw["stmts"]) != 1 or sw["stmts"][0]["rv"].get("k") != "discr" or sw["stmts"][0]["rv"]["place"]["local"] != bt["dest"]["local"]:
+                continue
+            tmap = {v: b_ for v, b_ in st_["targets"]}
+            want = 0 if variant in ("Ok", "Some") else 1
+            if want not in tmap:
+                continue
+            # clone the chain (everything after the construction block up to and including the switch block)
+            chain = path + ([] if path and path[-1] == bblk else []) 
+            if bblk == bi:
+                # the `?` is in the construction block itself: clone only the switch block
+                chain_blocks = [bt["target"]]
+                first_owner = None
+            else:
+                chain_blocks = path + [bt["target"]]
+            remap = {}
+            for ob in chain_blocks:
+                nb = copy.deepcopy(blocks[ob])
+                nb["id"] = len(blocks)
+                nb["synthetic"] = True
+                nb["threaded_from"] = ob
+                remap[ob] = nb["id"]
+                blocks.append(nb)
+            fwd = None
+            if variant == "Err":
+                fwd = self.identity_residual(j, blocks, tmap[want], bt)
+            for ob in chain_blocks:
+                nb = blocks[remap[ob]]
+                t = nb["term"]
+                if ob == bt["target"]:
+                    nb["term"] = {"k": "goto", "target": tmap[want]}
+                    nb["threaded_variant"] = variant
+                    if fwd is not None:
+                        # the failure value is returned as it is: `D = Err((tmp as Err).0)` instead of
+                        # `r = (x as Break).0; D = from_residual(r)` (identity conversion: same error type)
+                        dplace, nxt, ety, span = fwd
+                        el = len(j["locals"])
+                        j["locals"].append({"id": el, "ty": ety})
+                        src = {"local": name, "proj": [{"downcast": "Err", "vidx": 1}, {"field": "0", "idx": 0, "ty": ety}]}
+                        nb["stmts"] = [
+                            {"k": "assign", "place": P(el), "rv": {"k": "use", "op": MV(src)}, "span": span, "syn": True},
+                            {"k": "assign", "place": dplace, "rv": {"k": "aggregate", "adt": "std::result::Result", "variant": "Err", "fields": ["0"], "ops": [MV(P(el))]}, "span": span, "threaded": True},
+                        ]
+                        nb["term"] = {"k": "goto", "target": nxt}
+                elif t.get("target") in remap:
+                    t["target"] = remap[t["target"]]
+                if fwd is not None and ob == bblk and nb["term"]["k"] == "call":
+                    # the Try::branch call itself is dropped on this path (its operand stays available)
+                    nb["term"] = {"k": "goto", "target": nb["term"]["target"]}
+            # redirect the construction block
+            t0 = blocks[bi]["term"]
+            if bblk == bi:
+                t0["target"] = remap[bt["target"]]
+            elif t0.get("target") in remap:
+                t0["target"] = remap[t0["target"]]
+            done += 1
+        if done:
+            self.stats["tries_threaded"] = self.stats.get("tries_threaded", 0) + done
+
+    def identity_residual(self, j, blocks, brk, bt):
+        """If block brk is `r = (x as Break).0; D = from_residual(move r) -> N` converting Result<_, E> into
+        Result<_, E> (same E): returns (D, N, E, span)."""
+        for _ in range(4):
+            blk = blocks[brk]
+            if blk["term"]["k"] == "goto" and not blk["stmts"]:
+                brk = blk["term"]["target"]
+                continue
+            break
+        t = blk["term"]
+        if t["k"] != "call" or not re.search(r"ops::FromResidual::from_residual$", t.get("callee", "")) or t.get("target") is None:
+            return None
+        cur = None
+        for st in blk["stmts"]:
+            if st["k"] != "assign" or st["rv"]["k"] != "use" or st["place"]["proj"]:
+                return None
+            srcp = st["rv"]["op"].get("move") or st["rv"]["op"].get("copy")
+            if srcp is None:
+                return None
+            if srcp["local"] == bt["dest"]["local"] and srcp["proj"] and srcp["proj"][0].get("downcast") == "Break":
+                cur = st["place"]["local"]
+            elif cur is not None and srcp["local"] == cur and not srcp["proj"]:
+                cur = st["place"]["local"]
+            else:
+                return None
+        a = t["args"][0].get("move")
+        if a is None or cur is None or a["local"] != cur or a["proj"]:
+            return None
+        rf = t.get("resolved_full", "")
+        m = re.match(r"^<std::result::Result<(.*)> as std::ops::FromResidual<std::result::Result<std::convert::Infallible, (.*)>>>::from_residual$", rf)
+        if not m:
+            return None
+        parts = split_generics("X<" + m.group(1) + ">")
+        if len(parts) != 2 or parts[1].strip() != m.group(2).strip():
+            return None
+        return (t["dest"], t["target"], parts[1].strip(), blk["tspan"])
+
     def run(self):
         out = []
         for b in self.fj["bodies"]:
             out.append(self.body(b["path"]))
+        for jb in out:
+            if not jb.get("normalise_error"):
+                try:
+                    self.thread_try(jb)
+                except Exception as e:  # noqa
+                    jb["thread_error"] = repr(e)
         # absorbed bodies
         pin = pinned_functions() or set()
         for j in out:
@@ -484,4 +786,5 @@ class Normaliser:
                     j["absorbed"] = True
         self.fj["bodies"] = out
         self.fj["normalisation"] = self.stats
+        self.fj["moved"] = self.moved
         return self.fj
